@@ -202,7 +202,9 @@ func runCase(c *caseData) (o obs) {
 		}
 		n := ticks.Add(1)
 		if c.Mode == "cancel" && sh.Kind == "tick" && n == c.K {
-			markCancel(n)
+			// the ticks begun by now: other goroutines may have gone on ticking since this one took
+			// its number
+			markCancel(ticks.Load())
 			cancel()
 		}
 		ct := cancelTick.Load()
